@@ -14,11 +14,11 @@ package c12
 
 import (
 	"encoding/json"
-	"runtime/debug"
 	"fmt"
 	"os"
-	"strconv"
+	"runtime/debug"
 	"sort"
+	"strconv"
 	"strings"
 	"testing"
 	"time"
@@ -381,6 +381,10 @@ func assign(cfgs []space, of int) []int {
 			return 30
 		case strings.HasPrefix(n, "recv/stream10/"):
 			return 100
+		case strings.HasPrefix(n, "recv/") && strings.HasSuffix(n, "/conn0"):
+			return 5
+		case strings.HasPrefix(n, "recv/") && strings.HasSuffix(n, "/conn5"):
+			return 40
 		case strings.HasPrefix(n, "recv/"):
 			return 240
 		case n == "send/large", n == "transport/send/large":
